@@ -10,6 +10,9 @@
     any number of them (`CBody`): `lexAll` = the exact items (`itemsOfC`, END offsets), `parseSource` = the RawText / Print
     nodes in order, print nodes modulo positions (`NodesMatch`).  Steps: `seg_run_cmd`, `lex_cbody`; `loop_text`,
     `loop_print`, `loop_eof`, `parse_cbody`.
+  * `template_frame_spec`: the same inside `{template .name}` … `{/template}`: the exact items of the frame (`lex_frame`:
+    `open_tag_run`, `lex_cbody_open`, `close_tag_run`) and the template node whose body list matches (`template_body`,
+    `parse_cbody_until`, `loop_close`).  Not covered: `{namespace}` and a soydoc in front.
 -/
 import SoyVerif.Props.C17c
 import SoyVerif.Props.C15c
@@ -653,6 +656,514 @@ theorem body_source_spec_cmds (b : CBody) (hw : WFL ff b) (hc : CanonB ff pf b) 
   simp only [StateT.run, FileParser.fuelFor, FileParser.exprFuel, Parser.fuelFor]
   rw [hr]
   simp only [hnl, NodeList.toList, List.nil_append]
+
+end
+
+/-! # the `{template .t}` … `{/template}` FRAME around a body, at byte level -/
+
+/-- `template` -/
+def kwT : Bytes := [116, 101, 109, 112, 108, 97, 116, 101]
+
+/-- `{template .` name `}` -/
+def openTag (nm : Bytes) : Bytes := 123 :: (kwT ++ 32 :: ((46 :: nm) ++ [125]))
+
+/-- `{/template}` -/
+def closeTag : Bytes := 123 :: ((47 :: kwT) ++ [125])
+
+/-- a template name as `lexIdent` reads it behind the `.`: a letter or `_`, then letters, digits, `_` (any script) -/
+def NameOk (nm : Bytes) : Prop :=
+  ∃ c k, nm = c :: k ∧ alnumBytes (c :: k) = true ∧ isDig c = false ∧ ∀ r w, runeAt (c :: k) = some (r, w) → letterR r = true
+
+/-- the items of `{template .name}` at offset `q` -/
+def openItems (q : Nat) (nm : Bytes) : List Item :=
+  [⟨.tLeftDelim, q + 1, [123]⟩, ⟨.tTemplate, q + 1 + kwT.length, kwT⟩,
+   ⟨.tDotIdent, q + 1 + kwT.length + 1 + (46 :: nm).length, 46 :: nm⟩,
+   ⟨.tRightDelim, q + 1 + kwT.length + 1 + (46 :: nm).length + 1, [125]⟩]
+
+/-- the items of `{/template}` at offset `e` -/
+def closeItems (e : Nat) : List Item :=
+  [⟨.tLeftDelim, e + 1, [123]⟩, ⟨.tTemplateEnd, e + 1 + (47 :: kwT).length, 47 :: kwT⟩,
+   ⟨.tRightDelim, e + 1 + (47 :: kwT).length + 1, [125]⟩]
+
+section
+variable (LT : LexTableOK)
+include LT
+
+/-- `{template .name}` anywhere in the input, from any lexer record in `lexLeftDelim`: nine state functions -/
+theorem open_tag_run {inp : Array UInt8} {q : Nat} (nm post : Bytes) (hnm : NameOk nm)
+    (hin : InpAt inp q (openTag nm ++ post)) (w : Int) (dd : Bool) (ts : Int) (le : Item) (its : Array Item) (f : Nat) :
+    ∃ (w' : Int) (le' : Item) (its' : Array Item),
+      run (f + 9) .leftDelim (Lexer.mk inp q q w dd ts le its) =
+        run f .text (Lexer.mk inp ((q + 1 + kwT.length + 1 + (46 :: nm).length + 1 : Nat) : Int)
+          ((q + 1 + kwT.length + 1 + (46 :: nm).length + 1 : Nat) : Int) w' false (q : Int) le' its') ∧
+      its'.toList = its.toList ++ openItems q nm := by
+  obtain ⟨c, k, rfl, hk, hdg, hl⟩ := hnm
+  have h0 : InpAt inp q (123 :: 116 :: ([101, 109, 112, 108, 97, 116, 101] ++ 32 :: ((46 :: c :: k) ++ 125 :: post))) := by
+    simpa [openTag, kwT] using hin
+  have h1 : InpAt inp (q + 1) (kwT ++ (32 :: ((46 :: c :: k) ++ 125 :: post))) := by
+    have := inpAt_tail h0; simpa [kwT] using this
+  have h1' : InpAt inp (q + 1) (116 :: ([101, 109, 112, 108, 97, 116, 101] ++ 32 :: ((46 :: c :: k) ++ 125 :: post))) := inpAt_tail h0
+  have h2 : InpAt inp (q + 1 + kwT.length) (32 :: ((46 :: c :: k) ++ 125 :: post)) := inpAt_append h1
+  have h3 : InpAt inp (q + 1 + kwT.length + 1) ((46 :: c :: k) ++ 125 :: post) := inpAt_tail h2
+  have h4 : InpAt inp (q + 1 + kwT.length + 1 + (46 :: c :: k).length) (125 :: post) := inpAt_append h3
+  obtain ⟨hq0, hb0⟩ := byteAt_of_inpAt h0
+  obtain ⟨hq1, hb1⟩ := byteAt_of_inpAt (inpAt_tail h0)
+  have hld := lexLeftDelim_any inp q w dd ts le its 116 (by omega) (by rw [hb0]; rfl) (by rw [hb1]; rfl) (by omega) (by omega)
+  have hex : (inp.extract q (q + 1)).toList = [123] := inpAt_extract (v := [123]) h0
+  rw [hex] at hld
+  have hw1 : Step2 (q : Int) inp (q + 1) ⟨.tLeftDelim, q + 1, [123]⟩ (its.push ⟨.tLeftDelim, q + 1, [123]⟩) ⟨.tTemplate, kwT⟩ :=
+    step_word LT (c := 116) (k := [101, 109, 112, 108, 97, 116, 101]) (rest := 32 :: ((46 :: c :: k) ++ 125 :: post))
+      (by simpa [kwT] using h1) (by decide) (by decide) ⟨by decide, by decide⟩ .tTemplate
+      (Or.inl ⟨by decide, by decide, by decide⟩) _ _
+  obtain ⟨w1, hr1⟩ := run_of_step2 hw1 1 (f + 5)
+  have hw2 := step_dot (tg := (q : Int)) LT h3 hk (fun _ => hl) (rest := 125 :: post) ⟨by decide, by decide⟩
+    (itemOf ⟨.tTemplate, kwT⟩ (q + 1 + kwT.length)) ((its.push ⟨.tLeftDelim, q + 1, [123]⟩).push (itemOf ⟨.tTemplate, kwT⟩ (q + 1 + kwT.length)))
+  rw [hdg] at hw2
+  obtain ⟨w2, hr2⟩ := run_of_step2 hw2 1 (f + 2)
+  refine ⟨1, ⟨.tRightDelim, q + 1 + kwT.length + 1 + (46 :: c :: k).length + 1, [125]⟩,
+    ((((its.push ⟨.tLeftDelim, q + 1, [123]⟩).push (itemOf ⟨.tTemplate, kwT⟩ (q + 1 + kwT.length))).push
+      (itemOf ⟨.tDotIdent, 46 :: c :: k⟩ (q + 1 + kwT.length + 1 + (46 :: c :: k).length))).push
+      ⟨.tRightDelim, q + 1 + kwT.length + 1 + (46 :: c :: k).length + 1, [125]⟩), ?_, ?_⟩
+  · rw [show f + 9 = (((f + 5) + 2) + 1) + 1 by omega, C15c.run_succ (show step .leftDelim _ = _ from hld)]
+    have e1 : Lexer.mk inp ((q + 1 : Nat) : Int) ((q + 1 : Nat) : Int) 1 false (q : Int)
+        ⟨.tLeftDelim, q + 1, [123]⟩ (its.push ⟨.tLeftDelim, q + 1, [123]⟩) =
+        L (q : Int) inp (q + 1) (q + 1) 1 ⟨.tLeftDelim, q + 1, [123]⟩ (its.push ⟨.tLeftDelim, q + 1, [123]⟩) := rfl
+    rw [e1, run_step (step_beginTag h1' (by decide) (by decide) (by decide) 1 _ _), hr1]
+    unfold After
+    rw [show f + 5 = ((f + 2) + 2) + 1 by omega, run_step (step_space h2 w1 _ _), hr2]
+    unfold After
+    rw [show f + 2 = (f + 1) + 1 by omega, run_step (step_rbrace h4 w2 _ _), run_step (step_rightDelim h4 _ _)]
+    rfl
+  · simp [openItems, itemOf]
+
+omit LT in
+/-- `lexBeginTag` at `/`: on to `lexIdent` -/
+theorem step_beginTag_close {tg : Int} {inp q} {s : Bytes} (h : InpAt inp q (47 :: s)) (w le its) :
+    step .beginTag (L tg inp q q w le its) = some (some .ident, L tg inp q q 1 le its) := by
+  have hp := peek_hd (tg := tg) h (asciiHd_cons (by decide)) q w le its
+  simp only [step, lexBeginTag, hp, Option.bind_eq_bind, Option.bind_some, hdRune, hdW]
+  rfl
+
+/-- `{/template}` anywhere in the input, from any lexer record in `lexLeftDelim`: five state functions -/
+theorem close_tag_run {inp : Array UInt8} {e : Nat} (post : Bytes) (hin : InpAt inp e (closeTag ++ post))
+    (w : Int) (dd : Bool) (ts : Int) (le : Item) (its : Array Item) (f : Nat) :
+    ∃ (w' : Int) (le' : Item) (its' : Array Item),
+      run (f + 5) .leftDelim (Lexer.mk inp e e w dd ts le its) =
+        run f .text (Lexer.mk inp ((e + 1 + (47 :: kwT).length + 1 : Nat) : Int) ((e + 1 + (47 :: kwT).length + 1 : Nat) : Int)
+          w' false (e : Int) le' its') ∧
+      its'.toList = its.toList ++ closeItems e := by
+  have h0 : InpAt inp e (123 :: 47 :: (kwT ++ 125 :: post)) := by simpa [closeTag] using hin
+  have h1 : InpAt inp (e + 1) (([47] ++ kwT) ++ 125 :: post) := by have := inpAt_tail h0; simpa using this
+  have h1' : InpAt inp (e + 1) (47 :: (kwT ++ 125 :: post)) := inpAt_tail h0
+  have h4 : InpAt inp (e + 1 + ([47] ++ kwT).length) (125 :: post) := inpAt_append h1
+  obtain ⟨hq0, hb0⟩ := byteAt_of_inpAt h0
+  obtain ⟨hq1, hb1⟩ := byteAt_of_inpAt (inpAt_tail h0)
+  have hld := lexLeftDelim_any inp e w dd ts le its 47 (by omega) (by rw [hb0]; rfl) (by rw [hb1]; rfl) (by omega) (by omega)
+  have hex : (inp.extract e (e + 1)).toList = [123] := inpAt_extract (v := [123]) h0
+  rw [hex] at hld
+  have hir := identRest_word (tg := (e : Int)) LT (pre := [47]) (k := kwT) (rest := 125 :: post) (st := e + 1) h1 (by decide)
+    ⟨by decide, by decide⟩ .tCommandEnd .tTemplateEnd (Or.inl ⟨by decide, by decide, by decide⟩) 1
+    ⟨.tLeftDelim, e + 1, [123]⟩ (its.push ⟨.tLeftDelim, e + 1, [123]⟩)
+  have hid : step .ident (L (e : Int) inp (e + 1) (e + 1) 1 ⟨.tLeftDelim, e + 1, [123]⟩ (its.push ⟨.tLeftDelim, e + 1, [123]⟩)) =
+      some (some .insideTag, L (e : Int) inp (e + 1 + ([47] ++ kwT).length) (e + 1 + ([47] ++ kwT).length) (hdW (125 :: post))
+        ⟨.tTemplateEnd, e + 1 + ([47] ++ kwT).length, [47] ++ kwT⟩
+        ((its.push ⟨.tLeftDelim, e + 1, [123]⟩).push ⟨.tTemplateEnd, e + 1 + ([47] ++ kwT).length, [47] ++ kwT⟩)) := by
+    simp only [step, lexIdent, next_L h1' (by decide), Option.bind_eq_bind, Option.bind_some]
+    simp only [show ¬ (((47 : UInt8).toNat : Int) = 46) by decide, show ¬ (((47 : UInt8).toNat : Int) = 36) by decide, if_false,
+      show (((47 : UInt8).toNat : Int) = 47) by decide, if_true]
+    exact hir
+  refine ⟨1, ⟨.tRightDelim, e + 1 + ([47] ++ kwT).length + 1, [125]⟩,
+    (((its.push ⟨.tLeftDelim, e + 1, [123]⟩).push ⟨.tTemplateEnd, e + 1 + ([47] ++ kwT).length, [47] ++ kwT⟩).push
+      ⟨.tRightDelim, e + 1 + ([47] ++ kwT).length + 1, [125]⟩), ?_, ?_⟩
+  · rw [show f + 5 = ((((f + 1) + 1) + 1) + 1) + 1 by omega, C15c.run_succ (show step .leftDelim _ = _ from hld)]
+    have e1 : Lexer.mk inp ((e + 1 : Nat) : Int) ((e + 1 : Nat) : Int) 1 false (e : Int)
+        ⟨.tLeftDelim, e + 1, [123]⟩ (its.push ⟨.tLeftDelim, e + 1, [123]⟩) =
+        L (e : Int) inp (e + 1) (e + 1) 1 ⟨.tLeftDelim, e + 1, [123]⟩ (its.push ⟨.tLeftDelim, e + 1, [123]⟩) := rfl
+    rw [e1, run_step (step_beginTag_close h1' 1 _ _), run_step hid, run_step (step_rbrace h4 (hdW (125 :: post)) _ _),
+      run_step (step_rightDelim h4 _ _)]
+    rfl
+  · simp [closeItems]
+
+end
+
+section
+variable (ff : UInt64 → Bytes)
+
+/-- the items of a body that begins at byte `q`, without the EOF item -/
+def itemsB : Nat → CBody → List Item
+  | _, [] => []
+  | q, .text t :: r => textItem t (q + t.length) ++ itemsB (q + t.length) r
+  | q, .cmd a d :: r => tagItems ff q a d ++ itemsB (q + 1 + (spell (piecesBody ff a d)).length + 1) r
+
+/-- … position-free -/
+def tksB : CBody → List Tk
+  | [] => []
+  | .text t :: r => textTk t ++ tksB r
+  | .cmd a d :: r => ⟨.tLeftDelim, [123]⟩ :: (unsp (piecesBody ff a d) ++ tRD :: tksB r)
+
+theorem itemsB_tk : ∀ (b : CBody) (q : Nat), (itemsB ff q b).map Item.tk = tksB ff b
+  | [], _ => rfl
+  | .text t :: r, q => by simp [itemsB, tksB, textItem_tk, itemsB_tk r]
+  | .cmd a d :: r, q => by simp [itemsB, tksB, tagItems, emitT_tk, itemsB_tk r, Item.tk, tRD]
+
+variable (LT : LexTableOK)
+include LT
+
+/-- **lexer**, a body in front of a `{` (the closing command of the block it stands in): back in `lexLeftDelim` at that `{` -/
+theorem lex_cbody_open : ∀ (b : CBody), WFL ff b → ∀ (inp : Array UInt8) (q : Nat) (w : Int) (dd : Bool) (ts : Int) (le : Item)
+    (its : Array Item) (post : Bytes) (fuel : Nat), InpAt inp q (srcOfC ff b ++ 123 :: post) →
+    7 * (srcOfC ff b).length + 1 ≤ fuel →
+    ∃ (f' : Nat) (w' : Int) (dd' : Bool) (ts' : Int) (le' : Item) (its' : Array Item), fuel ≤ f' + (7 * (srcOfC ff b).length + 1) ∧
+      run fuel .text (Lexer.mk inp q q w dd ts le its) =
+        run f' .leftDelim (Lexer.mk inp ((q + (srcOfC ff b).length : Nat) : Int) ((q + (srcOfC ff b).length : Nat) : Int)
+          w' dd' ts' le' its') ∧
+      its'.toList = its.toList ++ itemsB ff q b
+  | [], _, inp, q, w, dd, ts, le, its, post, fuel, hin, hf => by
+    have hin' : InpAt inp q (123 :: post) := by simpa [srcOfC] using hin
+    obtain ⟨hq0, hb0⟩ := byteAt_of_inpAt hin'
+    obtain ⟨w1, dd1, ts1, le1, its1, hlx, hits1⟩ := C15c.lexText_text_open inp q 0 w dd ts le its (by omega)
+      (fun i hi => absurd hi (by omega)) (by rw [Nat.add_zero, hb0]; rfl)
+    obtain ⟨f, rfl⟩ : ∃ f, fuel = f + 1 := ⟨fuel - 1, by omega⟩
+    refine ⟨f, w1, dd1, ts1, le1, its1, by simp [srcOfC], ?_, ?_⟩
+    · rw [C15c.run_succ (show step .text _ = _ from hlx)]; rfl
+    · rw [hits1, C15c.textItems_nat]; simp [itemsB]
+  | .cmd a d :: r, hwf, inp, q, w, dd, ts, le, its, post, fuel, hin, hf => by
+    have hin' : InpAt inp q ([] ++ (printPrint ff a d ++ (srcOfC ff r ++ 123 :: post))) := by simpa [srcOfC] using hin
+    obtain ⟨m, hm, hrun⟩ := seg_run_cmd ff LT [] (Or.inl rfl) a d hwf.1 (srcOfC ff r ++ 123 :: post) hin' w dd ts le its
+    have hlenP := printPrint_length ff a d
+    have hnext : InpAt inp (q + 1 + (spell (piecesBody ff a d)).length + 1) (srcOfC ff r ++ 123 :: post) := by
+      have := inpAt_append (a := printPrint ff a d) (s := srcOfC ff r ++ 123 :: post) (by simpa using hin')
+      rw [hlenP] at this; simpa [Nat.add_assoc] using this
+    simp only [srcOfC, List.length_append] at hf ⊢
+    obtain ⟨f, rfl⟩ : ∃ f, fuel = f + m := ⟨fuel - m, by omega⟩
+    obtain ⟨w', le', its', hr, hits⟩ := hrun f
+    simp only [List.length_nil, Nat.add_zero] at hr hits
+    obtain ⟨f', w2, dd2, ts2, le2, its2, hf2, hr2, hits2⟩ := lex_cbody_open r hwf.2 inp _ w' false _ le' its' post f hnext (by omega)
+    have hpos : q + 1 + (spell (piecesBody ff a d)).length + 1 + (srcOfC ff r).length =
+        q + ((printPrint ff a d).length + (srcOfC ff r).length) := by omega
+    rw [hpos] at hr2
+    refine ⟨f', w2, dd2, ts2, le2, its2, by omega, by rw [hr, hr2], ?_⟩
+    rw [hits2, hits]; simp [itemsB, textItem]
+  | [.text t], hwf, inp, q, w, dd, ts, le, its, post, fuel, hin, hf => by
+    have hin' : InpAt inp q (t ++ 123 :: post) := by simpa [srcOfC] using hin
+    have hnx : InpAt inp (q + t.length) (123 :: post) := inpAt_append hin'
+    obtain ⟨hq0, hb0⟩ := byteAt_of_inpAt hnx
+    have hH : Holds inp q t := holds_of_inpAt hin'
+    obtain ⟨w1, dd1, ts1, le1, its1, hlx, hits1⟩ := C15c.lexText_text_open inp q t.length w dd ts le its (by omega)
+      (C15c.text_bytes hH (Or.inr hwf.1) (Or.inr (by rw [hb0]; decide))) (by rw [hb0]; rfl)
+    obtain ⟨f, rfl⟩ : ∃ f, fuel = f + 1 := ⟨fuel - 1, by omega⟩
+    refine ⟨f, w1, dd1, ts1, le1, its1, by omega, ?_, ?_⟩
+    · rw [C15c.run_succ (show step .text _ = _ from hlx)]; simp [srcOfC]
+    · rw [hits1, C15c.textItems_holds hH]; simp [itemsB]
+  | .text t :: .cmd a d :: r, hwf, inp, q, w, dd, ts, le, its, post, fuel, hin, hf => by
+    have hin' : InpAt inp q (t ++ (printPrint ff a d ++ (srcOfC ff r ++ 123 :: post))) := by simpa [srcOfC] using hin
+    obtain ⟨m, hm, hrun⟩ := seg_run_cmd ff LT t (Or.inr hwf.1) a d hwf.2.2.1 (srcOfC ff r ++ 123 :: post) hin' w dd ts le its
+    have hlenP := printPrint_length ff a d
+    have hnext : InpAt inp (q + t.length + 1 + (spell (piecesBody ff a d)).length + 1) (srcOfC ff r ++ 123 :: post) := by
+      have := inpAt_append (a := printPrint ff a d) (inpAt_append hin'); rw [hlenP] at this; simpa [Nat.add_assoc] using this
+    simp only [srcOfC, List.length_append] at hf ⊢
+    obtain ⟨f, rfl⟩ : ∃ f, fuel = f + m := ⟨fuel - m, by omega⟩
+    obtain ⟨w', le', its', hr, hits⟩ := hrun f
+    obtain ⟨f', w2, dd2, ts2, le2, its2, hf2, hr2, hits2⟩ := lex_cbody_open r hwf.2.2.2 inp _ w' false _ le' its' post f hnext (by omega)
+    have hpos : q + t.length + 1 + (spell (piecesBody ff a d)).length + 1 + (srcOfC ff r).length =
+        q + (t.length + ((printPrint ff a d).length + (srcOfC ff r).length)) := by omega
+    rw [hpos] at hr2
+    refine ⟨f', w2, dd2, ts2, le2, its2, by omega, by rw [hr, hr2], ?_⟩
+    rw [hits2, hits]; simp [itemsB]
+  | .text _ :: .text t2 :: _, hwf, _, _, _, _, _, _, _, _, _, _, _ => by
+    have := hwf.2.1 (.text t2) (by simp)
+    simp [BPiece.isText] at this
+
+end
+
+section
+variable (ff : UInt64 → Bytes)
+
+/-- `{template .name}` body `{/template}` -/
+def frameSrc (nm : Bytes) (b : CBody) : Bytes := openTag nm ++ (srcOfC ff b ++ closeTag)
+
+/-- the offset of the body -/
+def bodyStart (nm : Bytes) : Nat := 0 + 1 + kwT.length + 1 + (46 :: nm).length + 1
+
+/-- the items `lex` sends for the framed body (exact END offsets) -/
+def frameItems (nm : Bytes) (b : CBody) : List Item :=
+  openItems 0 nm ++ itemsB ff (bodyStart nm) b ++ closeItems (bodyStart nm + (srcOfC ff b).length) ++
+    [⟨.tEOF, bodyStart nm + (srcOfC ff b).length + 1 + (47 :: kwT).length + 1, []⟩]
+
+theorem openTag_length (nm : Bytes) : (openTag nm).length = bodyStart nm := by
+  simp [openTag, bodyStart]; omega
+
+variable (LT : LexTableOK)
+include LT
+
+/-- BYTE LEVEL, the template frame: `lex` on `{template .name}` ++ body ++ `{/template}` sends LeftDelim Template DotIdent
+    RightDelim, the items of the body (`itemsB`), LeftDelim TemplateEnd RightDelim, EOF — all at their exact offsets -/
+theorem lex_frame (nm : Bytes) (hnm : NameOk nm) (b : CBody) (hw : WFL ff b) :
+    lexAll (frameSrc ff nm b) false = .items (frameItems ff nm b) := by
+  let inp := (frameSrc ff nm b).toArray
+  have hI0 : InpAt inp 0 (openTag nm ++ (srcOfC ff b ++ closeTag)) := ⟨[], by simp [inp, frameSrc], rfl⟩
+  have hIB : InpAt inp (bodyStart nm) (srcOfC ff b ++ 123 :: ((47 :: kwT) ++ [125])) := by
+    have := inpAt_append hI0; rw [Nat.zero_add, openTag_length] at this; simpa [closeTag] using this
+  have hIC : InpAt inp (bodyStart nm + (srcOfC ff b).length) (closeTag ++ []) := by
+    have := inpAt_append hIB; simpa [closeTag] using this
+  have hIE : InpAt inp (bodyStart nm + (srcOfC ff b).length + 1 + (47 :: kwT).length + 1) [] := by
+    have := inpAt_append hIC
+    have e : bodyStart nm + (srcOfC ff b).length + closeTag.length =
+        bodyStart nm + (srcOfC ff b).length + 1 + (47 :: kwT).length + 1 := by simp [closeTag]; omega
+    rw [e] at this; exact this
+  have hsz := inpAt_end hIE
+  have h00 : InpAt inp 0 (123 :: (kwT ++ 32 :: ((46 :: nm) ++ [125]) ++ (srcOfC ff b ++ closeTag))) := by
+    simpa [openTag] using hI0
+  obtain ⟨hq0, hb0⟩ := byteAt_of_inpAt h00
+  obtain ⟨w1, dd1, ts1, le1, its1, hlx, hits1⟩ := C15c.lexText_text_open inp 0 0 0 false 0 Item.zero #[] (by omega)
+    (fun i hi => absurd hi (by omega)) (by rw [hb0]; rfl)
+  unfold lexAll
+  simp only [Bool.false_eq_true, if_false]
+  have hN : (frameSrc ff nm b).length = bodyStart nm + (srcOfC ff b).length + 1 + (47 :: kwT).length + 1 := by
+    simp [frameSrc, openTag_length, closeTag]; omega
+  have hbs : 4 ≤ bodyStart nm := by simp [bodyStart]; omega
+  obtain ⟨F, hF⟩ : ∃ F, Lex.fuelFor (frameSrc ff nm b).length = (F + 9) + 1 := ⟨Lex.fuelFor (frameSrc ff nm b).length - 10, by
+    unfold Lex.fuelFor; omega⟩
+  have hFb : 7 * (srcOfC ff b).length + 1 + 30 ≤ F := by
+    unfold Lex.fuelFor at hF; rw [hN] at hF; simp at hF; omega
+  have e0 : initLexer (frameSrc ff nm b) = Lexer.mk inp ((0 : Nat) : Int) ((0 : Nat) : Int) 0 false 0 Item.zero #[] := rfl
+  rw [hF, e0, C15c.run_succ (show step .text _ = _ from hlx)]
+  obtain ⟨w2, le2, its2, hr2, hits2⟩ := open_tag_run LT nm (srcOfC ff b ++ closeTag) hnm hI0 w1 dd1 ts1 le1 its1 F
+  simp only [Nat.add_zero] at hr2 ⊢
+  rw [hr2]
+  obtain ⟨f', w3, dd3, ts3, le3, its3, hf3, hr3, hits3⟩ := lex_cbody_open ff LT b hw inp (bodyStart nm) w2 false _ le2 its2
+    ((47 :: kwT) ++ [125]) F hIB (by omega)
+  have hr3' := hr3
+  unfold bodyStart at hr3'
+  rw [hr3']
+  obtain ⟨g, rfl⟩ : ∃ g, f' = (g + 1) + 5 := ⟨f' - 6, by omega⟩
+  obtain ⟨w4, le4, its4, hr4, hits4⟩ := close_tag_run LT [] hIC w3 dd3 ts3 le3 its3 (g + 1)
+  have hr4' := hr4
+  unfold bodyStart at hr4'
+  rw [hr4']
+  obtain ⟨lf, hl1, hl2⟩ := C15c.lexText_text_eof inp (bodyStart nm + (srcOfC ff b).length + 1 + (47 :: kwT).length + 1) 0 w4 false
+    ((bodyStart nm + (srcOfC ff b).length : Nat) : Int) le4 its4 (by omega) (fun i hi => absurd hi (by omega))
+  have hl1' := hl1
+  unfold bodyStart at hl1'
+  rw [C15c.run_end (show step .text _ = _ from hl1'), hl2, C15c.textItems_nat, hits4, hits3, hits2, hits1, C15c.textItems_nat]
+  simp [frameItems]
+
+end
+
+/-! ## the parser on the framed body -/
+
+section
+open SoyVerif.Model.FileParser (FState FP Node NodeList textOrTag itemListLoop skipComments beginTag parseFile parseSource)
+open SoyVerif.Props.C15c (textNodes toList_append)
+variable (ff : UInt64 → Bytes) (pf : Bytes → Option UInt64)
+
+/-- the round of `itemList(untl…)` that reads the closing command `{` `cl` of the block -/
+theorem loop_close (ef g : Nat) (untl : List ItemType) (hu1 : untl.contains .tLeftDelim = false) (cl : Tk)
+    (hcl : untl.contains cl.typ = true) (lpos : Option Nat) (nodes : NodeList) (rest : List Tk) (st : FState)
+    (hst : At st.p (⟨.tLeftDelim, [123]⟩ :: cl :: rest)) :
+    ∃ lp p', itemListLoop pf ef (g + 3) untl lpos nodes st = .ok (.list lp nodes, { st with p := p' }) ∧ At p' rest := by
+  obtain ⟨l2, p3, hn2, hl2, _, hj3⟩ := fnext_at hst
+  have hl2' : l2.typ = .tLeftDelim := hl2
+  obtain ⟨c, p4, hn3, hct, _, hj4⟩ := fnext_at (st := { st with p := p3 }) hj3.at
+  have hun : textOrTag pf ef (g + 1 + 1) l2 untl { st with p := p3 } = .ok ((none, true), { st with p := p4 }) := by
+    unfold textOrTag
+    simp only
+    rw [fbind_ok (skipComments_id g l2 _ (by rw [hl2']; decide))]
+    simp only [hl2', hu1, Bool.false_eq_true, if_false]
+    rw [fbind_ok hn3]
+    simp only [hct, hcl, beq_self_eq_true, Bool.and_self, if_true]
+    rfl
+  refine ⟨lpos.getD l2.pos, p4, ?_, hj4.at⟩
+  unfold itemListLoop
+  rw [fbind_ok hn2]
+  simp only
+  rw [fbind_ok hun]
+  rfl
+
+theorem tksB_head (r : CBody) (h : ∀ p ∈ r.head?, p.isText = false) (tl : List Tk) :
+    ∃ s, tksB ff r ++ ⟨.tLeftDelim, [123]⟩ :: tl = ⟨.tLeftDelim, [123]⟩ :: s := by
+  match r, h with
+  | [], _ => exact ⟨_, rfl⟩
+  | .cmd a d :: r, _ => exact ⟨_, rfl⟩
+  | .text t :: r, h => have := h (.text t) (by simp); simp [BPiece.isText] at this
+
+theorem fuelB_of_lenB : ∀ (b : CBody) (n : Nat), (tksB ff b).length ≤ n → FuelB ff (8 * n + 64) (2 * n + 2) b
+  | [], _, _ => trivial
+  | .text t :: r, n, h => fuelB_of_lenB r n (by simp [tksB] at h; omega)
+  | .cmd a d :: r, n, h => by
+    simp only [tksB, List.length_cons, List.length_append] at h
+    obtain ⟨f1, f2, f3⟩ := fuel_ok ff a d n (by omega)
+    exact ⟨⟨⟨by have := f1.1; omega, fun x hx y hy => by have := f1.2 x hx y hy; omega⟩, f2, f3⟩,
+      fuelB_of_lenB r n (by omega)⟩
+
+variable (T : TableOK)
+include T
+
+/-- **parser.**  `itemList(untl…)` on the tokens of a well-formed body that stands in a block closed by `{` `cl` -/
+theorem parse_cbody_until (ef G : Nat) (untl : List ItemType) (hu : untl.contains .tText = false)
+    (hu1 : untl.contains .tLeftDelim = false) (hu2 : ∀ t ∈ headTypes, untl.contains t = false) (cl : Tk)
+    (hcl : untl.contains cl.typ = true) (rest : List Tk) :
+    ∀ (b : CBody), WFL ff b → CanonB ff pf b → FuelB ff ef G b →
+    ∀ (F : Nat) (lpos : Option Nat) (nodes : NodeList) (st : FState),
+    At st.p (tksB ff b ++ ⟨.tLeftDelim, [123]⟩ :: cl :: rest) → G + (tksB ff b).length + 4 ≤ F →
+    ∃ lp nl p' tail, itemListLoop pf ef F untl lpos nodes st = .ok (.list lp nl, { st with p := p' }) ∧
+      nl.toList = nodes.toList ++ tail ∧ NodesMatch tail b ∧ At p' rest
+  | [], _, _, _, F, lpos, nodes, st, hst, hF => by
+    obtain ⟨g, rfl⟩ : ∃ g, F = g + 3 := ⟨F - 3, by omega⟩
+    obtain ⟨lp, p', hr, ha⟩ := loop_close pf ef g untl hu1 cl hcl lpos nodes rest st hst
+    exact ⟨lp, nodes, p', [], hr, by simp, rfl, ha⟩
+  | .text t :: r, hwf, hcan, hfu, F, lpos, nodes, st, hst, hF => by
+    obtain ⟨s, hnx⟩ := tksB_head ff r hwf.2.1 (cl :: rest)
+    have hst' : At st.p (textTk t ++ ⟨.tLeftDelim, [123]⟩ :: s) := by
+      rw [← hnx]; simpa [tksB] using hst
+    have hF' : G + ((textTk t).length + (tksB ff r).length) + 4 ≤ F := by
+      simpa only [tksB, List.length_append] using hF
+    obtain ⟨F', lp1, n1, q1, pos1, hFa, hFb, hr1, hn1, ha1⟩ := loop_text pf ef untl hu t ⟨.tLeftDelim, [123]⟩ (by decide) (by decide)
+      s F (by omega) lpos nodes st hst'
+    rw [← hnx] at ha1
+    obtain ⟨lp, nl, p', tail, hr, hnl, hm, ha⟩ := parse_cbody_until ef G untl hu hu1 hu2 cl hcl rest r hwf.2.2 hcan hfu F' lp1 n1
+      { st with p := q1 } ha1 (by omega)
+    exact ⟨lp, nl, p', textNodes t pos1 ++ tail, by rw [hr1]; exact hr, by rw [hnl, hn1]; simp, ⟨pos1, tail, rfl, hm⟩, ha⟩
+  | .cmd a d :: r, hwf, hcan, hfu, F, lpos, nodes, st, hst, hF => by
+    simp only [tksB, List.length_cons, List.length_append] at hF
+    obtain ⟨g, rfl⟩ : ∃ g, F = g + 3 := ⟨F - 3, by omega⟩
+    have hg : G ≤ g := by omega
+    have hst' : At st.p (⟨.tLeftDelim, [123]⟩ :: (unsp (piecesBody ff a d) ++ tRD :: (tksB ff r ++ ⟨.tLeftDelim, [123]⟩ :: cl :: rest))) := by
+      simpa [tksB] using hst
+    obtain ⟨lp2, pos, e', ds', q2, hr2, he, hd, ha2⟩ := loop_print ff pf T a d hcan.1 ef g hfu.1.1
+      (fun x hx => by have := hfu.1.2.1 x hx; omega) (by have := hfu.1.2.2; omega) untl hu1 hu2
+      lpos nodes _ st hst'
+    obtain ⟨lp, nl, p', tail, hr, hnl, hm, ha⟩ := parse_cbody_until ef G untl hu hu1 hu2 cl hcl rest r hwf.2 hcan.2 hfu.2 (g + 2) lp2 _
+      { st with p := q2 } ha2 (by omega)
+    refine ⟨lp, nl, p', Node.print pos e' ds' :: tail, by rw [hr2]; exact hr, ?_, ⟨pos, e', ds', tail, rfl, he, hd, hm⟩, ha⟩
+    rw [hnl, toList_append]
+    simp [NodeList.toList]
+
+/-- the TEMPLATE around a body, token level: `beginTag` on `template` `.name` `}` body `{` `/template` `}` -/
+theorem template_body (ef G y : Nat) (b : CBody) (hw : WFL ff b) (hc : CanonB ff pf b) (hfu : FuelB ff ef G b)
+    (hy : G + (tksB ff b).length + 4 ≤ y) (tv ev name : Bytes) (rest : List Tk) (st : FState)
+    (hst : At st.p (⟨.tTemplate, tv⟩ :: ⟨.tDotIdent, name⟩ :: tRD ::
+      (tksB ff b ++ ⟨.tLeftDelim, [123]⟩ :: ⟨.tTemplateEnd, ev⟩ :: tRD :: rest))) :
+    ∃ tpos lp nl p', beginTag pf ef (y + 2) st =
+        .ok (some (Node.template tpos (st.ns ++ name) (.list lp nl) .unspecified false), { st with p := p' }) ∧
+      NodesMatch nl.toList b ∧ At p' rest := by
+  obtain ⟨tt, p1, hn1, htt, _, hj1⟩ := fnext_at hst
+  have htt' : tt.typ = .tTemplate := htt
+  obtain ⟨di, p2, hx2, _, hdv, hj2⟩ := fexpect_at (st := { st with p := p1 }) hj1.at
+  have hdv' : di.val = name := hdv
+  obtain ⟨r1, p3, hn3, hr1, hr1v, hj3⟩ := fnext_at (st := { st with p := p2 }) hj2.at
+  have hr1' : r1.typ = .tRightDelim := hr1
+  obtain ⟨p4, hb4, ha4⟩ := fbackup_just (st := { st with p := p3 }) hj3
+  rw [tk_eq hr1 hr1v] at ha4
+  obtain ⟨_, p5, hx5, _, _, hj5⟩ := fexpect_at (st := { st with p := p4 }) ha4.at
+  obtain ⟨lp, nl, p6, tail, hil, hnl, hm, ha6⟩ := parse_cbody_until ff pf T ef G [.tTemplateEnd] (by decide) (by decide) (by decide)
+    ⟨.tTemplateEnd, ev⟩ (by simp) (tRD :: rest) b hw hc hfu y none .nil { st with p := p5 } hj5.at hy
+  obtain ⟨_, p7, hx7, _, _, hj7⟩ := fexpect_at (st := { st with p := p6 }) ha6
+  have hnl' : nl.toList = tail := by simpa [NodeList.toList] using hnl
+  refine ⟨tt.pos, lp, nl, p7, ?_, by rw [hnl']; exact hm, hj7.at⟩
+  obtain ⟨y', rfl⟩ : ∃ y', y = y' + 1 := ⟨y - 1, by omega⟩
+  have hpa : FileParser.parseAttrs [FileParser.kAutoescape, FileParser.kPrivate, FileParser.kKind] (y' + 1) []
+      { st with p := p2 } = .ok ([], { st with p := p4 }) := by
+    unfold FileParser.parseAttrs
+    rw [fbind_ok hn3]
+    simp only [hr1', show (ItemType.tRightDelim == ItemType.tIdent) = false by decide, Bool.false_eq_true, if_false,
+      beq_self_eq_true, Bool.true_or, if_true]
+    rw [fbind_ok hb4]
+    rfl
+  have hx2' : FileParser.expect .tDotIdent { st with p := p1 } = .ok (di, { st with p := p2 }) := hx2
+  have hx5' : FileParser.expect .tRightDelim { st with p := p4 } = .ok (_, { st with p := p5 }) := hx5
+  have hx7' : FileParser.expect .tRightDelim { st with p := p6 } = .ok (_, { st with p := p7 }) := hx7
+  have hpt : FileParser.parseTemplate pf ef (y' + 1 + 1) tt { st with p := p1 } =
+      .ok (Node.template tt.pos (st.ns ++ name) (.list lp nl) .unspecified false, { st with p := p7 }) := by
+    unfold FileParser.parseTemplate
+    rw [fbind_ok hx2', fbind_ok hpa]
+    simp only [FileParser.parseAutoescape, FileParser.boolAttr, FileParser.lookup, List.find?_nil, Option.map_none,
+      Option.getD_none, beq_self_eq_true, if_true]
+    rw [fbind_ok (show (pure _ : FP Autoescape) { st with p := p4 } = .ok (_, { st with p := p4 }) from rfl)]
+    rw [fbind_ok (show (pure false : FP Bool) { st with p := p4 } = .ok (_, { st with p := p4 }) from rfl)]
+    rw [fbind_ok hx5', fbind_ok hil]
+    rw [fbind_ok (show (get : FP FState) { st with p := p6 } = .ok ({ st with p := p6 }, { st with p := p6 }) from rfl)]
+    rw [fbind_ok hx7', hdv']
+    rfl
+  unfold beginTag
+  rw [fbind_ok hn1]
+  simp only [htt']
+  rw [fbind_ok hpt]
+  rfl
+
+end
+
+section
+open SoyVerif.Model.FileParser (FState FP Node NodeList textOrTag itemListLoop skipComments beginTag parseFile parseSource)
+variable (ff : UInt64 → Bytes) (pf : Bytes → Option UInt64) (LT : LexTableOK) (T : TableOK)
+include LT T
+
+/-- **`template_frame_spec`** — `body_source_spec_cmds` inside a template: for a template name `nm` (`NameOk`) and a
+    well-formed body `b` (text runs and arbitrary print commands), `parse.SoyFile` on
+    `{template .nm}` ++ `srcOfC ff b` ++ `{/template}`:
+
+    * the lexer sends exactly `frameItems ff nm b` — LeftDelim Template DotIdent RightDelim, the items of the body,
+      LeftDelim TemplateEnd RightDelim, EOF — every item at its exact END offset;
+    * the parser returns the one template node, named `.nm` (no namespace), autoescape unspecified, not private, whose
+      body list is the RawText / Print nodes of the body in order, print nodes modulo positions (`NodesMatch`). -/
+theorem template_frame_spec (nm : Bytes) (hnm : NameOk nm) (b : CBody) (hw : WFL ff b) (hc : CanonB ff pf b) :
+    lexAll (frameSrc ff nm b) false = .items (frameItems ff nm b) ∧
+      ∃ tpos lp nl, parseSource pf (frameSrc ff nm b) =
+          .ok [Node.template tpos (46 :: nm) (.list lp nl) .unspecified false] ∧ NodesMatch nl.toList b := by
+  have hl := lex_frame ff LT nm hnm b hw
+  refine ⟨hl, ?_⟩
+  have htk : (frameItems ff nm b).map Item.tk = ⟨.tLeftDelim, [123]⟩ :: ⟨.tTemplate, kwT⟩ :: ⟨.tDotIdent, 46 :: nm⟩ :: tRD ::
+      (tksB ff b ++ ⟨.tLeftDelim, [123]⟩ :: ⟨.tTemplateEnd, 47 :: kwT⟩ :: tRD :: [⟨.tEOF, []⟩]) := by
+    simp [frameItems, openItems, closeItems, itemsB_tk, Item.tk, tRD]
+  have hlen : (tksB ff b).length + 8 = (frameItems ff nm b).length := by
+    have := congrArg List.length htk
+    simp at this; omega
+  have hfu := fuelB_of_lenB ff b (frameItems ff nm b).length (by omega)
+  have hst0 := at_init (frameItems ff nm b)
+  rw [htk] at hst0
+  obtain ⟨ld, p1, hn1, hlt, _, hj1⟩ := fnext_at (st := { p := initState (frameItems ff nm b) }) hst0
+  have hlt' : ld.typ = .tLeftDelim := hlt
+  obtain ⟨t2, p2, hn2, ht2, hv2, hj2⟩ := fnext_at (st := { p := p1 }) hj1.at
+  have ht2' : t2.typ = .tTemplate := ht2
+  obtain ⟨p3, hb3, ha3⟩ := fbackup_just (st := { p := p2 }) hj2
+  rw [tk_eq ht2 hv2] at ha3
+  obtain ⟨tpos, lp, nl, p4, hbt, hm, ha4⟩ := template_body ff pf T (8 * (frameItems ff nm b).length + 64)
+    (2 * (frameItems ff nm b).length + 2) (8 * (frameItems ff nm b).length + 60) b hw hc hfu (by omega) kwT (47 :: kwT) (46 :: nm)
+    [⟨.tEOF, []⟩] { p := p3 } ha3.at
+  have hto : textOrTag pf (8 * (frameItems ff nm b).length + 64) (8 * (frameItems ff nm b).length + 60 + 2 + 1) ld [.tEOF] { p := p1 } =
+      .ok ((some (Node.template tpos (46 :: nm) (.list lp nl) .unspecified false), false), { p := p4 }) := by
+    unfold textOrTag
+    simp only
+    rw [fbind_ok (skipComments_id _ ld _ (by rw [hlt']; decide))]
+    simp only [hlt', show ([ItemType.tEOF].contains ItemType.tLeftDelim) = false by decide, Bool.false_eq_true, if_false]
+    rw [fbind_ok hn2]
+    simp only [ht2', show ([ItemType.tEOF].contains ItemType.tTemplate) = false by decide, Bool.and_false, Bool.false_eq_true, if_false]
+    rw [fbind_ok hb3]
+    simp only [show (ItemType.tLeftDelim == ItemType.tText) = false by decide, Bool.false_eq_true, if_false,
+      beq_self_eq_true, if_true]
+    rw [fbind_ok hbt]
+    rfl
+  obtain ⟨lp2, st5, hr5⟩ := loop_eof pf (8 * (frameItems ff nm b).length + 64) (8 * (frameItems ff nm b).length + 60)
+    (some ((none : Option Nat).getD ld.pos)) (NodeList.nil.append (.cons (Node.template tpos (46 :: nm) (.list lp nl) .unspecified false) .nil))
+    [] { p := p4 } ha4
+  have hrun : itemListLoop pf (8 * (frameItems ff nm b).length + 64) ((8 * (frameItems ff nm b).length + 60 + 2 + 1) + 1) [.tEOF]
+      none .nil { p := initState (frameItems ff nm b) } =
+      .ok (.list lp2 (NodeList.nil.append (.cons (Node.template tpos (46 :: nm) (.list lp nl) .unspecified false) .nil)), st5) := by
+    unfold itemListLoop
+    rw [fbind_ok hn1]
+    simp only
+    rw [fbind_ok hto]
+    simp only [Bool.false_eq_true, if_false]
+    exact hr5
+  refine ⟨tpos, lp, nl, ?_, hm⟩
+  unfold parseSource
+  rw [hl]
+  simp only
+  unfold parseFile
+  simp only [StateT.run, FileParser.fuelFor, FileParser.exprFuel, Parser.fuelFor]
+  rw [show 8 * (frameItems ff nm b).length + 64 = (8 * (frameItems ff nm b).length + 60 + 2 + 1) + 1 by omega] at hrun ⊢
+  rw [hrun]
+  rfl
 
 end
 
